@@ -15,6 +15,7 @@ CLAIMED = {
              "at the complete assignment and the sum of scipy/docstring reference log-densities; one-step vs several-step routes, the "
              "stacked-vector view, Posterior / MultipleLikelihoodPosterior via JointDistribution and BayesianProblem(set_data) must give "
              "the same number; evaluations with missing, unknown, doubly specified or surplus arguments must raise.",
+        text2="A stacked vector with missing or surplus entries must be refused; the joint is evaluated and conditioned a second time after the program (no state left behind).",
         note="Trusted: scipy.stats reference densities and the C20 reference stencils. Names always given explicitly. One recorded finding "
              "(conditioning an already reduced Posterior on its last variable raises) is excluded and counted.",
         design="3/C01"),
@@ -48,6 +49,7 @@ CLAIMED = {
              "dim=1 exp(logpdf) is integrated by adaptive quadrature (=1, and cdf = running integral); one covariance rendered in "
              "4 parameterisations x 5 storage forms x 4 square-root kinds on both sides of the (lowered, and in the thorough tier true) "
              "dense/sparse switch must equal multivariate_normal(mean, Sigma); MRF priors via the C20 references.",
+        text2="Further sub-checks: conditional siblings (copies conditioned on different values, keywords in any order, one step or two), storage-switch independence (same input, same density on both sides of MIN_DIM_SPARSE), either-convention sqrtcov relation, re-assignment of parameters on a live object (also changing structure), moderate true sizes 40-90 without a bound on |logpdf|, sparse csr/csc/dia/coo inputs, integer-typed and list inputs, covariance scales 1e-10..1e18.",
         note="Trusted: scipy.stats, scipy.integrate.quad. |logpdf| <= 600. SmoothedLaplace is compared with its documented formula only "
              "(the documented formula is itself not normalised). Recorded findings excluded and counted.",
         design="3/C04"),
@@ -59,6 +61,7 @@ CLAIMED = {
              "marginal cdf (own logpdf integrated for the modified half-normal), KS test with a confirming second stage. Plus: same "
              "generator state => same draws, global state untouched, one draw = array with the geometry, N draws = Samples with N "
              "columns, conditional distributions refuse.",
+        text2="Further sub-checks: resample after re-assigning parameters on a live object, square batches (N = dim), numpy Generator as well as RandomState, draws' covariance compared with the specified covariance.",
         note="Statistical part detects distributional errors of a few percent (KS at n=20k: sup-distance ~0.015), not smaller; "
              "exact part has tolerance 1e-8 (1e-6 through eigendecompositions / regularised Cholesky).",
         design="3/C05"),
@@ -94,7 +97,7 @@ CLAIMED = {
              "the same momentum and slice repeated M times, the frequency with which each leaf is returned per direction pattern must be "
              "that of uniform progressive sub-sampling with top-level probability min(1, n'/n). Invariance: x ~ target exactly, k "
              "transitions, whitened KS/mean/variance tests.",
-        text2="The invariance test includes un-normalised targets (log-density shifted by -900/-5000/+400) and, for both interfaces, the step size produced by the sampler's own warm-up.",
+        text2="The exact part draws depth 0-6 (last doublings cut short inside their second half occur) and includes a target with bounded support (leaves with log-density -inf and nan gradient count with probability 0; the reported statistic must be finite); the invariance test includes a product of Beta distributions. The invariance test includes un-normalised targets (log-density shifted by -900/-5000/+400) and, for both interfaces, the step size produced by the sampler's own warm-up.",
         note="Selection law and invariance are statistical (two-stage, joint false-alarm <= 1e-11 per test): 4000/20000 repeats per case; "
              "detect selection-probability errors of a few percent. Depth <= 3 in the selection law, <= 6 in the exact part.",
         design="3/C08"),
@@ -133,7 +136,7 @@ CLAIMED = {
              "object, adding every derived object to the pool. After every step every pooled object must still show the fingerprint taken "
              "at its creation (logd and gradient at fixed assignments, parameter names, conditioning variables, name, dim, geometry type, "
              "seeded samples, model forward values and argument names), and conditioned copies must report their original's name.",
-        text2="The conditioning rule draws a value variant so that siblings conditioned on different values coexist; every newly derived object is additionally compared with the same derivation replayed on freshly built, untouched originals (history independence).",
+        text2="Sub-check copy_names: eleven families (incl. all regularised Gaussians), name explicit or inferred from the Python variable, looked up before or after conditioning, one or two steps, then conditioned on the variable itself. Sub-check inspection: the same conditioning of an inspected (dim, geometry, name, variable lists, repr) and of a never inspected original must agree. The pool contains a conditional distribution whose mean is a function of three conditioning variables, and new joints assembled from pooled objects. The conditioning rule draws a value variant so that siblings conditioned on different values coexist; every newly derived object is additionally compared with the same derivation replayed on freshly built, untouched originals (history independence).",
         note="Explicit mutators (enable_FD, attribute assignment) are not rules; cosmetic geometry variable labels are not part of the "
              "fingerprint. 25 (quick) / 50 (thorough) steps per history.",
         design="3/C11"),
@@ -144,6 +147,7 @@ CLAIMED = {
              "ndarray parameters, flagged function values, CUQIarrays in both representations and Samples must equal "
              "range.fun2par(F(domain.par2fun(p))) and be wrapped like the input; gradient must equal J_p^T d (central differences of "
              "forward) or be refused exactly when it cannot be formed; model(distribution) must only rename the input on a copy.",
+        text2="References for mapped geometries are composed by the harness (wrapped geometry, then map); range geometries include KL/step expansions and mapped geometries around them (gradient must then be refused); user functions are generated both defensively (np.asarray) and as plain array expressions so that geometry-carrying arrays travel through the user's arithmetic; a user subclass of MappedGeometry around an expansion supplies its own gradient; linearisation points are given as parameters, function values and CUQIarrays of either kind, alone and together with a CUQIarray direction; integer-typed and function-value Samples.",
         note="Trusted: numpy; central differences with step 1e-6 (tolerance 2e-5). PDE-based models are covered under C18.",
         design="3/C12"),
     "C17": dict(
@@ -155,6 +159,7 @@ CLAIMED = {
              "data - exactData must equal the stated noise exactly (sigma*e, |y|*sigma*e, ||y||/SNR*e); model/data/likelihood/prior/"
              "posterior/get_components() must be the same objects with consistent geometries; posterior.logd must equal the Gaussian "
              "log-likelihood of the stated noise plus prior.logd.",
+        text2="PSFs are compared with their definitions (named 1-D and 2-D kernels, integer and non-integer parameters, PSF_size > dim); the field representation of the PDE problems (field_type incl. a geometry object, then map) is composed by the harness; documented grids are asserted; the problem is unchanged after every single use; construction refusals other than the spline's minimum node count are violations.",
         note="Trusted: scipy.ndimage.convolve1d as the documented definition of Deconvolution1D; PDE discretisation constants mirror the "
              "problem description; the legacy circulant form is accepted as convolution or correlation with the given kernel.",
         design="3/C17"),
@@ -185,6 +190,7 @@ CLAIMED = {
              "consecutive indices, and equal the finally stored chain column by column (which also shows stored entries are never altered "
              "later); lengths as requested; legacy sample(N, Nb) = last N states of the N+Nb chain, first column = x0; (iv) reinitialize() "
              "must give the get_state() of a newly constructed, initialised sampler and an empty history.",
+        text2="Sub-check burnthin: burn-in and thinning of a recorded chain held as parameters, function values or vectorised function values on 1-D and 2-D geometries (states Nb, Nb+Nt, ... in order; the chain itself unaltered). Histories of warm-up and sampling phases in any order; the first Gibbs chain is unaltered by a continuation.",
         note="Random stream = numpy global state. Legacy CWMH (in-place update on a view of the chain, pinned by the existing regression "
              "tests) is a recorded finding, excluded and counted. RegularizedLinearRTO run with a numeric step size.",
         design="3/C14"),
@@ -208,6 +214,7 @@ CLAIMED = {
              "worse than perturbed feasible points; LM results must be stationary within gradtol; the SciPy wrappers must reproduce "
              "the direct SciPy call bit for bit; projections/soft-thresholding must equal the closed forms and satisfy the variational "
              "inequality. Iteration-cap exits are inconclusive. Sizes <= 14.",
+        text2="FISTA from a start vector of another number type (int, float32) must reproduce the run from the same numbers as float64 exactly; step size and proximal map re-assigned on a live solver; LM on problems translated by 1e3 / 1e6; proximal maps with exact zeros; CGLS/PCGLS non-convergence on a well-conditioned system is a violation.",
         note="Trusted: numpy.linalg, SciPy optimisers as reference; LM is exercised with gradtol >= 1e-8 (tighter tolerances are "
              "not reachable in floating point on large-residual problems, see DESIGN).",
         design="3/C16"),
@@ -225,6 +232,7 @@ CLAIMED = {
              "with an independent dense reference (pad-then-diff); the MRF priors are compared with the documented densities of "
              "those reference differences at generated points with non-zero location. Exhaustive inside the size bounds, "
              "generated search for the continuous inputs; no proof beyond the bounds.",
+        text2="Sub-checks nonsquare_2d (MRFs on non-square 2-D geometries must be refused or correct) and gmrf_large (2-D 20-36, 1-D 300-700: normalising constant against eigenvalues of the reference precision); pdf must equal exp(logpdf) for LMRF/CMRF.",
         note="Trusted: numpy/scipy dense linear algebra; the reference reading of the boundary conditions stated in "
              "checks/c20.py (ASSUMPTIONS).",
         design="3/C20"),
